@@ -73,6 +73,13 @@ func (t *tbl) containerDump(obj *absint.Tok) map[string]string {
 				}
 			case *absint.Tok:
 				walk(v, path+"."+k, depth+1)
+			case *absint.List:
+				// (a list kept beside the container - names in registration order, say - is part of the state)
+				for i, e := range v.Elems {
+					out[fmt.Sprintf("%s.%s#%d", path, k, i)] = absint.Show(e)
+				}
+			case absint.Int, absint.Str, absint.Bool:
+				out[path+"."+k] = absint.Show(v)
 			}
 		}
 	}
@@ -174,17 +181,36 @@ func registerTableByState(c *core.Ctx, T *types.Named, reg *ssa.Function, nameFn
 				}
 			}
 			sort.Strings(added)
-			ok := len(changed) == 0
+			// what is added beside the keyed entry may only be the name or the component itself, once (a list of names)
+			var keyed, beside []string
+			for _, a := range added {
+				if strings.Contains(a, "[") {
+					keyed = append(keyed, a)
+				} else {
+					beside = append(beside, a)
+				}
+			}
+			okBeside := len(beside) <= 1
+			for _, a := range beside {
+				if !strings.HasSuffix(a, `="NAME"`) && !strings.HasSuffix(a, "=component") {
+					okBeside = false
+				}
+			}
+			added = keyed
+			ok := len(changed) == 0 && okBeside
+			if existing != "none" && len(beside) != 0 {
+				ok = false
+			}
 			switch existing {
 			case "none":
 				ok = ok && !panicked && out.Panic == nil && len(before) == 0 && len(added) == 1 && strings.HasSuffix(added[0], "[NAME]=component") || ok && !panicked && out.Panic == nil && len(added) == 1 && strings.HasSuffix(added[0], `["NAME"]=component`)
 			case "same":
-				ok = ok && !panicked && out.Panic == nil && len(added) == 0 && len(before) == 1
+				ok = ok && !panicked && out.Panic == nil && len(added) == 0 && len(before) >= 1
 			case "other":
-				ok = ok && panicked && len(added) == 0 && len(before) == 1
+				ok = ok && panicked && len(added) == 0 && len(before) >= 1
 			}
 			if !ok {
-				bad = fmt.Sprintf("existing=%s held before=%v added=%v changed=%v panicked=%v => %s", existing, before, added, changed, panicked, showOutcome(out))
+				bad = fmt.Sprintf("existing=%s held before=%v added=%v beside=%v changed=%v panicked=%v => %s", existing, before, added, beside, changed, panicked, showOutcome(out))
 			}
 		}
 		k, u := runTable(c, reg, build, check)
